@@ -467,6 +467,11 @@ def walk_section(s, with_ts=False):
     d["reference"] = _attr(s, "reference")
     d["repository"] = _attr(s, "repository")
     try:
+        lk = s.link
+        d["link"] = None if lk is None else {"id": _attr(lk, "id"), "name": _attr(lk, "name"), "type": _attr(lk, "type")}
+    except Exception as e:  # noqa
+        d["link"] = Raises(e)
+    try:
         d["props"] = tuple(walk_prop(p, with_ts) for p in s.props)
     except Exception as e:  # noqa
         d["props"] = Raises(e)
